@@ -49,6 +49,108 @@ def check_request_gate(ctx, out, rule):
         out.inst(rule, 1, 1, ["every Ok return of the request function passes the key test and the request"])
 
 
+def check_env(ctx, out, rule="C19.env"):
+    """Environment -> client configuration (shared with C13: a missing API key fails closed only if the
+    ambient OPENAI_* defaults of async-openai are overridden on every path)."""
+    RULE = rule
+    m = 0
+    ne = None
+    cands = []
+    for b in ctx.reachable_bodies():
+        if any(callee_matches(t, r"^std::env::var$") for bi, t in b.calls()):
+            top = b
+            while top.kind == "Closure" and top.parent and ctx.facts.body(top.parent) is not None:
+                top = ctx.facts.body(top.parent)
+            if top.id not in [c.id for c in cands]:
+                cands.append(top)
+    for b in cands:
+        # normalised view: a helper closure that reads `env::var(name)` is inlined at each use
+        b = ctx.inl(b, skip=ctx.domain_api, tag="domain", sugar=True) if not b.coroutine else b
+        vs = [util.const_val(ctx, b, t["args"][0]) for bi, t in b.calls() if callee_matches(t, r"^std::env::var$") and t["args"]]
+        if set(vs) >= {"BLOCKWATCH_AI_API_KEY"}:
+            ne = b
+    if ne is None:
+        out.viol(RULE, RULE + "|fn", "-", "the function reading BLOCKWATCH_AI_API_KEY was not found")
+    else:
+        for bi, t in ne.calls():
+            for var, sink in ENVS.items():
+                if sink and callee_matches(t, sink):
+                    labs = ctx.prov.read_operand(ne, t["args"][1])
+                    if P.has_const(labs, var) and not any(P.has_const(labs, o) for o in ENVS if o != var):
+                        m += 1
+                    else:
+                        out.viol(RULE, RULE + "|%s" % var, ctx.where(ne, t["span"]), "`%s` is fed from [%s]; expected the value of %s" % (callee_name(t).split("::")[-1], util.origins_text({l for l in labs if l[0] == "const"}, 4), var))
+        # OpenAIConfig::new()/default() reads the ambient OPENAI_API_KEY / OPENAI_ADMIN_KEY /
+        # OPENAI_BASE_URL variables (pinned async-openai, src/config.rs): both overrides must be
+        # applied on every path to the client's construction
+        ncfg = cfg_of(ne)
+        wc = [bi for bi, t in ne.calls() if callee_matches(t, r"async_openai::Client::<C>::with_config$|async_openai::Client::.*with_config$")]
+        for var, sink in ENVS.items():
+            if not sink:
+                continue
+            ss = [bi for bi, t in ne.calls() if callee_matches(t, sink)]
+            if wc and ss and all(any(ncfg.dominates(s, w) for s in ss) for w in wc):
+                m += 1
+            elif wc:
+                out.viol(RULE, RULE + "|conditional|%s" % var, ctx.where(ne),
+                         "`%s` is not applied on every path to `Client::with_config`: when %s is unset the client keeps async-openai's defaults, which are read from the ambient OPENAI_API_KEY / OPENAI_ADMIN_KEY / OPENAI_BASE_URL variables - a request can be sent with a foreign key instead of failing the run" % (sink.split("::")[-1].rstrip("$"), var))
+        ml = ctx.prov.read_local(ne, 0, ("model",))
+        if P.has_const(ml, "BLOCKWATCH_AI_MODEL") and not P.has_const(ml, "BLOCKWATCH_AI_API_KEY") and not P.has_const(ml, "BLOCKWATCH_AI_API_URL"):
+            m += 1
+        else:
+            out.viol(RULE, RULE + "|BLOCKWATCH_AI_MODEL", ctx.where(ne), "the client's model is not taken from BLOCKWATCH_AI_MODEL")
+        # the empty-key default stays empty (so that check_block's guard fires)
+        m_before = m
+        for bi, t in ne.calls():
+            if callee_matches(t, ENVS["BLOCKWATCH_AI_API_KEY"]):
+                kl = ctx.prov.read_operand(ne, t["args"][1])
+                cs = {l[1] for l in kl if l[0] == "const" and isinstance(l[1], str)}
+                key_consts = cs
+        for bi, t in ne.calls():
+            if callee_matches(t, r"Result::<T, E>::unwrap_or$"):
+                src = ctx.prov.read_operand(ne, t["args"][0])
+                if P.has_const(src, "BLOCKWATCH_AI_API_KEY"):
+                    d = ctx.expr(ne).operand(t["args"][1])
+                    cs = [x[1] for x in walk(d) if x[0] == "const" and isinstance(x[1], str)]
+                    if cs == [""]:
+                        m += 1
+                    else:
+                        out.viol(RULE, RULE + "|key-default", ctx.where(ne, t["span"]), "an unset API key defaults to %r instead of the empty key that is rejected before any request" % cs)
+            elif callee_matches(t, r"Result::<T, E>::unwrap_or_default$") and "std::string::String" in (t.get("dest_ty") or ""):
+                if P.has_const(ctx.prov.read_operand(ne, t["args"][0]), "BLOCKWATCH_AI_API_KEY"):
+                    m += 1      # String::default() is the empty string
+            elif callee_matches(t, r"Result::<T, E>::unwrap_or_else$"):
+                src = ctx.prov.read_operand(ne, t["args"][0])
+                if P.has_const(src, "BLOCKWATCH_AI_API_KEY"):
+                    from engine.desugar import resolve_closure
+                    tgt, cap = resolve_closure(ctx.facts, ne.blocks, t["args"][1])
+                    cs = None
+                    if tgt is not None and not isinstance(tgt, tuple):
+                        cs = [x[1] for bi2, j2, s2 in tgt.assigns() for x in walk(ctx.expr(tgt).rvalue(s2["rv"])) if x[0] == "const" and isinstance(x[1], str)]
+                        calls = [callee_name(t2) for _, t2 in tgt.calls()]
+                        if (cs == [""] or (not cs and any(re.search(r"String::new$|Default>::default$", c) for c in calls))):
+                            m += 1
+                            continue
+                    out.viol(RULE, RULE + "|key-default", ctx.where(ne, t["span"]), "an unset API key defaults to %r instead of the empty key that is rejected before any request" % cs)
+        if m == m_before:
+            # no recognised default idiom (the default went through a helper): decide on the origins
+            # of the key handed to with_api_key - its only constants are the variable's name and ""
+            kc = locals().get("key_consts")
+            if kc is not None and "" in kc and kc <= {"", "BLOCKWATCH_AI_API_KEY"}:
+                m += 1
+            elif kc is not None:
+                out.viol(RULE, RULE + "|key-default", ctx.where(ne), "an unset API key defaults to %r instead of the empty key that is rejected before any request" % sorted(kc - {"BLOCKWATCH_AI_API_KEY"}))
+        # the detector builds the production client from the environment
+        info = ctx.validator(NAME)
+        det = ctx.facts.bodies.get(info["detect"]) if info and info.get("detect") else None
+        if det is not None and any((t.get("res") or "") == ne.id for bi, t in det.calls()):
+            m += 1
+        else:
+            out.viol(RULE, RULE + "|detector", ctx.where(det) if det else "-", "the check-ai detector does not build its client from the environment")
+    out.inst(RULE, m, 7, ["KEY->with_api_key, URL->with_api_base, MODEL->model; unset key -> ''"])
+
+
+
 def run(ctx, out, tier):
     res = asyncval.check_once(ctx, out, "C19", NAME, r"check_ai::AiClient::check_block$", "request (`AiClient::check_block`)")
     # the production client's check_block
@@ -133,101 +235,7 @@ def run(ctx, out, tier):
     out.inst("C19.request", n, 6, ["one create(); Err if key empty; no Ok without request; user := format(condition, content); model := self.model"])
 
     # ------------------------------------------------------------------ C19.env
-    m = 0
-    ne = None
-    cands = []
-    for b in ctx.reachable_bodies():
-        if any(callee_matches(t, r"^std::env::var$") for bi, t in b.calls()):
-            top = b
-            while top.kind == "Closure" and top.parent and ctx.facts.body(top.parent) is not None:
-                top = ctx.facts.body(top.parent)
-            if top.id not in [c.id for c in cands]:
-                cands.append(top)
-    for b in cands:
-        # normalised view: a helper closure that reads `env::var(name)` is inlined at each use
-        b = ctx.inl(b, skip=ctx.domain_api, tag="domain", sugar=True) if not b.coroutine else b
-        vs = [util.const_val(ctx, b, t["args"][0]) for bi, t in b.calls() if callee_matches(t, r"^std::env::var$") and t["args"]]
-        if set(vs) >= {"BLOCKWATCH_AI_API_KEY"}:
-            ne = b
-    if ne is None:
-        out.viol("C19.env", "C19.env|fn", "-", "the function reading BLOCKWATCH_AI_API_KEY was not found")
-    else:
-        for bi, t in ne.calls():
-            for var, sink in ENVS.items():
-                if sink and callee_matches(t, sink):
-                    labs = ctx.prov.read_operand(ne, t["args"][1])
-                    if P.has_const(labs, var) and not any(P.has_const(labs, o) for o in ENVS if o != var):
-                        m += 1
-                    else:
-                        out.viol("C19.env", "C19.env|%s" % var, ctx.where(ne, t["span"]), "`%s` is fed from [%s]; expected the value of %s" % (callee_name(t).split("::")[-1], util.origins_text({l for l in labs if l[0] == "const"}, 4), var))
-        # OpenAIConfig::new()/default() reads the ambient OPENAI_API_KEY / OPENAI_ADMIN_KEY /
-        # OPENAI_BASE_URL variables (pinned async-openai, src/config.rs): both overrides must be
-        # applied on every path to the client's construction
-        ncfg = cfg_of(ne)
-        wc = [bi for bi, t in ne.calls() if callee_matches(t, r"async_openai::Client::<C>::with_config$|async_openai::Client::.*with_config$")]
-        for var, sink in ENVS.items():
-            if not sink:
-                continue
-            ss = [bi for bi, t in ne.calls() if callee_matches(t, sink)]
-            if wc and ss and all(any(ncfg.dominates(s, w) for s in ss) for w in wc):
-                m += 1
-            elif wc:
-                out.viol("C19.env", "C19.env|conditional|%s" % var, ctx.where(ne),
-                         "`%s` is not applied on every path to `Client::with_config`: when %s is unset the client keeps async-openai's defaults, which are read from the ambient OPENAI_API_KEY / OPENAI_ADMIN_KEY / OPENAI_BASE_URL variables - a request can be sent with a foreign key instead of failing the run" % (sink.split("::")[-1].rstrip("$"), var))
-        ml = ctx.prov.read_local(ne, 0, ("model",))
-        if P.has_const(ml, "BLOCKWATCH_AI_MODEL") and not P.has_const(ml, "BLOCKWATCH_AI_API_KEY") and not P.has_const(ml, "BLOCKWATCH_AI_API_URL"):
-            m += 1
-        else:
-            out.viol("C19.env", "C19.env|BLOCKWATCH_AI_MODEL", ctx.where(ne), "the client's model is not taken from BLOCKWATCH_AI_MODEL")
-        # the empty-key default stays empty (so that check_block's guard fires)
-        m_before = m
-        for bi, t in ne.calls():
-            if callee_matches(t, ENVS["BLOCKWATCH_AI_API_KEY"]):
-                kl = ctx.prov.read_operand(ne, t["args"][1])
-                cs = {l[1] for l in kl if l[0] == "const" and isinstance(l[1], str)}
-                key_consts = cs
-        for bi, t in ne.calls():
-            if callee_matches(t, r"Result::<T, E>::unwrap_or$"):
-                src = ctx.prov.read_operand(ne, t["args"][0])
-                if P.has_const(src, "BLOCKWATCH_AI_API_KEY"):
-                    d = ctx.expr(ne).operand(t["args"][1])
-                    cs = [x[1] for x in walk(d) if x[0] == "const" and isinstance(x[1], str)]
-                    if cs == [""]:
-                        m += 1
-                    else:
-                        out.viol("C19.env", "C19.env|key-default", ctx.where(ne, t["span"]), "an unset API key defaults to %r instead of the empty key that is rejected before any request" % cs)
-            elif callee_matches(t, r"Result::<T, E>::unwrap_or_default$") and "std::string::String" in (t.get("dest_ty") or ""):
-                if P.has_const(ctx.prov.read_operand(ne, t["args"][0]), "BLOCKWATCH_AI_API_KEY"):
-                    m += 1      # String::default() is the empty string
-            elif callee_matches(t, r"Result::<T, E>::unwrap_or_else$"):
-                src = ctx.prov.read_operand(ne, t["args"][0])
-                if P.has_const(src, "BLOCKWATCH_AI_API_KEY"):
-                    from engine.desugar import resolve_closure
-                    tgt, cap = resolve_closure(ctx.facts, ne.blocks, t["args"][1])
-                    cs = None
-                    if tgt is not None and not isinstance(tgt, tuple):
-                        cs = [x[1] for bi2, j2, s2 in tgt.assigns() for x in walk(ctx.expr(tgt).rvalue(s2["rv"])) if x[0] == "const" and isinstance(x[1], str)]
-                        calls = [callee_name(t2) for _, t2 in tgt.calls()]
-                        if (cs == [""] or (not cs and any(re.search(r"String::new$|Default>::default$", c) for c in calls))):
-                            m += 1
-                            continue
-                    out.viol("C19.env", "C19.env|key-default", ctx.where(ne, t["span"]), "an unset API key defaults to %r instead of the empty key that is rejected before any request" % cs)
-        if m == m_before:
-            # no recognised default idiom (the default went through a helper): decide on the origins
-            # of the key handed to with_api_key - its only constants are the variable's name and ""
-            kc = locals().get("key_consts")
-            if kc is not None and "" in kc and kc <= {"", "BLOCKWATCH_AI_API_KEY"}:
-                m += 1
-            elif kc is not None:
-                out.viol("C19.env", "C19.env|key-default", ctx.where(ne), "an unset API key defaults to %r instead of the empty key that is rejected before any request" % sorted(kc - {"BLOCKWATCH_AI_API_KEY"}))
-        # the detector builds the production client from the environment
-        info = ctx.validator(NAME)
-        det = ctx.facts.bodies.get(info["detect"]) if info and info.get("detect") else None
-        if det is not None and any((t.get("res") or "") == ne.id for bi, t in det.calls()):
-            m += 1
-        else:
-            out.viol("C19.env", "C19.env|detector", ctx.where(det) if det else "-", "the check-ai detector does not build its client from the environment")
-    out.inst("C19.env", m, 7, ["KEY->with_api_key, URL->with_api_base, MODEL->model; unset key -> ''"])
+    check_env(ctx, out)
 
     # ------------------------------------------------------------------ C19.reply
     r = 0
